@@ -569,12 +569,55 @@ func doClear(_ context.Context, st *runState, cl int, label string, affects func
 	verifrt.Note("c%d %s returned", cl, label)
 }
 
+const sentinelIdx = eth2p0.ValidatorIndex(0xdead0000)
+
+var (
+	backings   = map[*runState]map[int][]eth2p0.ValidatorIndex{}
+	backingLen = map[int]int{}
+)
+
+func clientBacking(st *runState, client int) []eth2p0.ValidatorIndex {
+	m := backings[st]
+	if m == nil {
+		// one run at a time per process: drop the previous run's arrays
+		for k := range backings {
+			delete(backings, k)
+		}
+		for k := range backingLen {
+			delete(backingLen, k)
+		}
+		m = map[int][]eth2p0.ValidatorIndex{}
+		backings[st] = m
+	}
+	if m[client] == nil {
+		m[client] = make([]eth2p0.ValidatorIndex, 12)
+		for k := range m[client] {
+			m[client][k] = sentinelIdx
+		}
+		backingLen[client] = 0
+	}
+	return m[client]
+}
+
 func doRead(c *kernel.Ctx, ctx context.Context, st *runState, cache *eth2wrap.DutiesCache, o *op) {
 	epoch := eth2p0.Epoch(epoch0 + o.ep)
-	vidxs := make([]eth2p0.ValidatorIndex, 0, len(o.req))
+	// the request slice is a sub-slice of a per-client array that the client reuses for all its requests
+	// (spare capacity behind it, sentinel-filled): a cache that keeps the caller's slice, or appends to
+	// it, corrupts either the caller's memory or its own bookkeeping on the client's next request
+	backing := clientBacking(st, o.client)
+	for k := range backing {
+		if k >= backingLen[o.client] && backing[k] != sentinelIdx {
+			c.Violate("C20", "caller-slice", "spare-capacity-of-request-slice-written", "client %d: element %d behind an earlier request slice was overwritten with %d after the call had returned", o.client, k, backing[k])
+		}
+	}
+	for k := range backing {
+		backing[k] = sentinelIdx
+	}
+	vidxs := backing[:0]
 	for _, i := range o.req {
 		vidxs = append(vidxs, eth2p0.ValidatorIndex(i))
 	}
+	backingLen[o.client] = len(vidxs)
 	orig := slices.Clone(vidxs)
 	o.label = fmt.Sprintf("%s e%d %v", kindName[o.kind], epoch, o.req)
 	st.mu.Lock()
